@@ -13,7 +13,7 @@ from harness import common, tlc
 _RAW = {}
 
 
-def run_case(shape, work):
+def run_case(shape, work, mag="unit"):
     from infretis.classes.formatter import PathStorage
     from infretis.classes.path import Path, load_path
     from infretis.classes.system import System
@@ -37,7 +37,7 @@ def run_case(shape, work):
     for k, fr in enumerate(shape):
         s = System()
         x = 10 * fr["file"] + fr["idx"]
-        s.order = [x + 0.123456, -0.5 * k]
+        s.order = [x + 0.123456, -0.5 * k] if mag == "unit" else [54321.0 + x + 0.123456, -1234.5 - k, 0.25]
         s.config = (files[fr["file"]], fr["idx"])
         s.vel_rev = bool(fr["rev"])
         if fr["en"] == "zero":
@@ -94,8 +94,8 @@ def _job(chunk):
                 continue
             n += 1
             shape = [dict(f) for f in st["shape"]]
-            for sig, msg in run_case(shape, work):
-                out.append((sig, msg, shape))
+            for sig, msg in run_case(shape, work, st.get("mag", "unit")):
+                out.append((sig + (";wide" if st.get("mag") == "wide" else ""), msg, {"shape": shape, "mag": st.get("mag", "unit")}))
     finally:
         shutil.rmtree(os.path.dirname(work), ignore_errors=True)
     return n, out
@@ -120,8 +120,8 @@ def run(chk, pid, tier, work):
     ncases = 0
     for n, fails in results:
         ncases += n
-        for sig, msg, shape in fails:
-            chk.violation(sig, msg, {"property": pid, "binding": "B", "spec": "StoreShape", "kind": "storeshape-case", "shape": shape, "clause": sig})
+        for sig, msg, case in fails:
+            chk.violation(sig, msg, {"property": pid, "binding": "B", "spec": "StoreShape", "kind": "storeshape-case", "shape": case["shape"], "mag": case["mag"], "clause": sig})
     chk.evaluated(ncases)
     chk.traces(ncases)
     for i in range(ncases):
